@@ -247,7 +247,7 @@ Definition m_reopen (m : mapp) (o : oopts) : mapp :=
 (* Open on a fresh path *)
 Definition m_create (fs : N) (prealloc : bool) (meta : bytes) (o : oopts) : mapp :=
   let F := zeros (if prealloc then fs else 0) in
-  mkm [(0, F)] 0 (h_open F (mko (o_ro o) (if o_ro o then 0 else o_buf o) (o_retry o) (o_auto o))) []
+  mkm [(0, F)] 0 (h_open F (ro_nobuf o)) []
       fs meta prealloc (o_ro o) (o_retry o) (o_auto o) (o_buf o) false.
 
 Definition m_step (m : mapp) (o : op) : mapp * out :=
@@ -262,7 +262,9 @@ Definition m_step (m : mapp) (o : op) : mapp * out :=
   | Discard off => m_discard m off
   | SwitchRO => m_switch_ro m
   | Close => m_close m
-  | Reopen o => if m_closed m then (m_reopen m o, OOk) else (m, OErr)
+  | Reopen o =>
+      if m_closed m then if opts_valid o then (m_reopen m o, OOk) else (m, OErr)
+      else (m, OErr)
   | Meta => (m, OBytes (m_meta m))
   end.
 
